@@ -204,10 +204,14 @@ theorem invoke_ret (t : Target) (f : Callable) (m q v : PyVal) (hb : binds f.sig
     invoke t (some f) m q = (.value v, [.call t m q]) := by
   simp [invoke, hb, hbody]
 
-theorem invoke_raised (t : Target) (f : Callable) (m q : PyVal) (cls text : String) (te ae : Bool)
-    (hb : binds f.sig q = true) (hbody : f.body q = .raised cls text te ae) :
+/-- `dp` is the depth at which the body raises (`CallOutcome.raised`); a `TypeError` must come with a frame
+    of its own (`dp ≠ 0`: every Python callable) to be told from a binding failure. -/
+theorem invoke_raised (t : Target) (f : Callable) (m q : PyVal) (cls text : String) (te ae : Bool) (dp : Nat)
+    (hb : binds f.sig q = true) (hbody : f.body q = .raised cls text te ae dp) (hdp : te = true → dp ≠ 0) :
     invoke t (some f) m q = (.fault codeInternal (msgServerError cls text), [.call t m q]) := by
-  cases te <;> simp [invoke, hb, hbody, handleCallExc, methodExceptionFault]
+  cases te with
+  | false => simp [invoke, hb, hbody, handleCallExc, methodExceptionFault]
+  | true => simp [invoke, hb, hbody, handleCallExc, methodExceptionFault, hdp rfl]
 
 /-- The parameters the callable receives for the `params` the client sent. -/
 def serverParams (p : PyVal) : PyVal := if p.truthy then p.normalise else .list []
